@@ -22,17 +22,32 @@ static void drv_reset(void)
 	conf = new mpt::config::root;
 }
 
-static const char *lookup(const char *str, int sep)
+static int grab_cb(void *ctx, mpt::convertable *val, const mpt::collection *sub)
+{
+	(void) sub;
+	return grab_text(val, (struct grab *) ctx);
+}
+static char *lookup(const char *str, int sep)
+{
+	mpt::path p(str, sep, 0);
+	struct grab g = { 0, 0 };
+	if (conf->query(&p, grab_cb, &g) < 0 || !g.found) {
+		free(g.text);
+		return 0;
+	}
+	return g.text;
+}
+/* the same question through config::get with a text target (diagnostic) */
+static int lookup_s(const char *str, int sep)
 {
 	mpt::path p(str, sep, 0);
 	const char *val = 0;
-	if (!conf->get(p, val)) return 0;
-	return val;
+	return conf->get(p, val) && val;
 }
 
 static void emit_store(struct cmd *c, const char *ret, const char *retval, int isval)
 {
-	int i;
+	int i, present = 0, as_s = 0;
 	drv_begin(c);
 	if (drv_int(c, "q", 0)) {
 		drv_dbg();
@@ -42,11 +57,18 @@ static void emit_store(struct cmd *c, const char *ret, const char *retval, int i
 	if (isval) j_val("ret", retval);
 	else j_str("ret", ret);
 	j_arr_open("all");
-	for (i = 0; i < nuni; i++) j_item_val(lookup(uni[i], usep));
+	for (i = 0; i < nuni; i++) {
+		char *v = lookup(uni[i], usep);
+		j_item_val(v);
+		if (v) { present++; if (lookup_s(uni[i], usep)) as_s++; }
+		free(v);
+	}
 	j_arr_close();
 	j_arr_open("rel");
 	j_arr_close();
 	drv_dbg();
+	j_int("present", present);
+	j_int("as_s", as_s);
 	drv_end();
 }
 
@@ -74,7 +96,9 @@ static void drv_step(struct cmd *c)
 			emit_store(c, r ? "ok" : "refused", 0, 0);
 		}
 		else {
-			emit_store(c, 0, lookup(path, sep), 1);
+			char *v = lookup(path, sep);
+			emit_store(c, 0, v, 1);
+			free(v);
 		}
 		free(path);
 		return;
